@@ -465,3 +465,150 @@ Qed.
 Theorem accept_mono e t : check E e = (t, []) -> exists t', check E' e = (t', []) /\ looser t t'.
 Proof. apply chk_mono. Qed.
 End Accept.
+
+(* ---- any_never_blamed ---------------------------------------------------------------
+   [blamed k]: the operand types a diagnostic names as the reason of the error.  For a
+   comparison both operand types are printed; when one of them is any the other one is the
+   reason (any is comparable with every type that is comparable at all). *)
+Definition blamed (k : dkind) : list ty :=
+  match k with
+  | DDerefRecv t | DFilterElem t | DFilterRecv t | DIndexArr t | DIndexObj t | DIndexOperand t | DNotOp t => [t]
+  | DFilterMapElem m _ => [m]
+  | DNotAssignable _ a _ => [a]
+  | DCompare l r => if is_any l then [r] else if is_any r then [l] else [l; r]
+  | _ => []
+  end.
+Definition clean (d : diag) : Prop := ~ In TAny (blamed (d_kind d)).
+
+Ltac clean_tac :=
+  repeat match goal with |- context [match ?x with _ => _ end] => destruct x end;
+  cbn [snd];
+  first [apply Forall_nil
+        | (apply Forall_cons; [unfold clean; cbn; intuition discriminate | apply Forall_nil])].
+
+Section Blame.
+Variables (mg : ty -> ty -> ty) (fa : bool) (E : env).
+
+Lemma var_node_clean p n : Forall clean (snd (var_node E p n)).
+Proof. unfold var_node. clean_tac. Qed.
+Lemma check_config_blamed cfg prop k : check_config cfg prop = Some k -> blamed k = [].
+Proof.
+  unfold check_config.
+  repeat match goal with |- context [match ?x with _ => _ end] => destruct x end;
+    intros H; inversion H; reflexivity.
+Qed.
+Lemma deref_node_clean r p t : Forall clean (snd (deref_node E r p t)).
+Proof.
+  unfold deref_node. pose proof (check_config_blamed (e_config E) p) as CB.
+  destruct (check_config (e_config E) p) as [k|];
+  repeat match goal with |- context [match ?x with _ => _ end] => destruct x end;
+  cbn [snd];
+  first [apply Forall_nil
+        | (apply Forall_cons; [unfold clean; cbn [d_kind]; try rewrite (CB _ eq_refl); cbn; intuition discriminate | apply Forall_nil])].
+Qed.
+Lemma arrderef_node_clean pos t : Forall clean (snd (arrderef_node fa pos t)).
+Proof. unfold arrderef_node. clean_tac. Qed.
+Lemma index_node_clean o i ti t : Forall clean (snd (index_node o i ti t)).
+Proof. unfold index_node. clean_tac. Qed.
+Lemma not_node_clean p t : Forall clean (snd (not_node p t)).
+Proof. unfold not_node. cbn. constructor. Qed.
+Lemma cmp_node_clean op pos tl tr : Forall clean (snd (cmp_node op pos tl tr)).
+Proof.
+  unfold cmp_node. destruct (compare_ok op tl tr) eqn:C; cbn; [constructor|].
+  constructor; [|constructor]. unfold clean. cbn.
+  destruct tl; destruct tr; cbn; try (intuition discriminate).
+  cbn in C. destruct (is_eq_op op); discriminate.
+Qed.
+
+Lemma sig_loop_clean ps : forall i args d, sig_loop i ps args = Some d -> clean d.
+Proof.
+  induction ps as [|p ps IH]; intros i [|a args] d H; cbn in H; try discriminate.
+  destruct (assignable p (fst a)) eqn:A; [eapply IH; eauto|].
+  inversion H; subst. unfold clean. cbn. intros [Ha|[]]. rewrite Ha, assignable_any_r in A. discriminate.
+Qed.
+Lemma rest_loop_clean p : forall args i d, rest_loop i p args = Some d -> clean d.
+Proof.
+  induction args as [|a args IH]; intros i d H; cbn in H; [discriminate|].
+  destruct (assignable p (fst a)) eqn:A; [eapply IH; eauto|].
+  inversion H; subst. unfold clean. cbn. intros [Ha|[]]. rewrite Ha, assignable_any_r in A. discriminate.
+Qed.
+Lemma check_sig_clean cpos s args d : check_sig cpos s args = Some d -> clean d.
+Proof.
+  unfold check_sig. destruct (_ || _); [intros H; inversion H; subst; unfold clean; cbn; tauto|].
+  destruct (sig_loop 0 (fs_params s) args) eqn:S; [intros H; inversion H; subst; eapply sig_loop_clean; eauto|].
+  destruct (fs_varlen s); [apply rest_loop_clean|discriminate].
+Qed.
+Lemma resolve_clean cpos sigs args : forall errs, resolve cpos sigs args = inr errs -> Forall clean errs.
+Proof.
+  induction sigs as [|s sigs IH]; intros errs H; cbn in H; [inversion H; constructor|].
+  destruct (check_sig cpos s args) eqn:C; [|discriminate].
+  destruct (resolve cpos sigs args); [discriminate|]. inversion H; subst.
+  constructor; [eapply check_sig_clean; eauto|apply IH; reflexivity].
+Qed.
+
+Lemma format_diags_clean pos f l : Forall clean (format_diags pos f l).
+Proof.
+  apply Forall_forall. intros d Hin. unfold format_diags in Hin. apply in_app_or in Hin.
+  destruct Hin as [Hin|Hin]; apply in_map_iff in Hin; destruct Hin as (x & <- & _); unfold clean; cbn; tauto.
+Qed.
+
+Lemma builtin_call_clean p c args s : Forall clean (snd (builtin_call mg E p c args s)).
+Proof.
+  unfold builtin_call.
+  assert (A : Forall clean (if mem (lower c) (e_special E) && negb (mem (lower c) (e_spavail E)) then [mkdiag p DFuncNotAllowed] else [])).
+  { destruct (_ && _); repeat constructor. unfold clean; cbn; tauto. }
+  repeat match goal with |- context [match ?x with _ => _ end] => destruct x end; cbn [snd];
+    try exact A; apply Forall_app; (split; [exact A|]); try apply format_diags_clean.
+  all: apply Forall_cons; [unfold clean; cbn; tauto|apply Forall_nil].
+Qed.
+
+Lemma call_node_clean p c args sigs tys : Forall clean (snd (call_node mg E p c args sigs tys)).
+Proof.
+  unfold call_node. destruct (resolve p sigs tys) eqn:R; [apply builtin_call_clean|].
+  cbn. eapply resolve_clean; eauto.
+Qed.
+
+Lemma chk_clean e : forall nw, Forall clean (snd (chk mg fa E nw e)).
+Proof.
+  induction e as [p n|p|p b|p z|p r|p s|r n IHr|r IHr|o i IHo IHi|p x IHx|op l r IHl IHr|op l r IHl IHr|p c args IHargs]
+    using expr_ind'; intros nw.
+  - rewrite chk_var. apply var_node_clean.
+  - destruct nw; constructor.
+  - destruct nw; constructor.
+  - destruct nw; constructor.
+  - destruct nw; constructor.
+  - destruct nw; constructor.
+  - rewrite chk_deref. specialize (IHr None). destruct (chk mg fa E None r) as [t ds].
+    pose proof (deref_node_clean r n t) as C. destruct (deref_node E r n t). cbn in *. apply Forall_app; auto.
+  - rewrite chk_arrderef. specialize (IHr None). destruct (chk mg fa E None r) as [t ds].
+    pose proof (arrderef_node_clean (etok r) t) as C. destruct (arrderef_node fa (etok r) t). cbn in *. apply Forall_app; auto.
+  - rewrite chk_index. specialize (IHo None). specialize (IHi None).
+    destruct (chk mg fa E None i) as [ti di]. destruct (chk mg fa E None o) as [t dop].
+    pose proof (index_node_clean o i ti t) as C. destruct (index_node o i ti t). cbn in *.
+    apply Forall_app; split; [apply Forall_app; auto|auto].
+  - destruct nw as [tr|]; [rewrite chk_not_some; apply IHx|]. rewrite chk_not_none.
+    specialize (IHx None). destruct (chk mg fa E None x) as [t ds]. cbn in *. rewrite app_nil_r. exact IHx.
+  - rewrite chk_cmp. specialize (IHl None). specialize (IHr None).
+    destruct (chk mg fa E None l) as [tl dl]. destruct (chk mg fa E None r) as [tr dr].
+    pose proof (cmp_node_clean op (etok l) tl tr) as C. destruct (cmp_node op (etok l) tl tr). cbn in *.
+    apply Forall_app; split; [apply Forall_app; auto|auto].
+  - assert (L : Forall clean (snd (logical_of mg fa E op l r))).
+    { unfold logical_of. specialize (IHl (Some match op with LAnd => false | LOr => true end)). specialize (IHr None).
+      destruct (chk mg fa E (Some _) l). destruct (chk mg fa E None r). cbn in *. apply Forall_app; auto. }
+    destruct nw as [tr|]; [|rewrite chk_log_none; exact L].
+    rewrite chk_log_some. destruct (match op with LAnd => tr | LOr => negb tr end); [|exact L].
+    unfold seq2_of. specialize (IHl None). specialize (IHr None).
+    destruct (chk mg fa E None l). destruct (chk mg fa E None r). cbn in *. apply Forall_app; auto.
+  - rewrite chk_call. destruct (lookup (lower c) (e_funcs E)) as [sigs|].
+    + assert (A : Forall clean (snd (chk_args mg fa E args))).
+      { induction IHargs as [|a args Ha _ IHa]; cbn; [constructor|].
+        specialize (Ha None). destruct (chk mg fa E None a). destruct (chk_args mg fa E args). cbn in *. apply Forall_app; auto. }
+      destruct (chk_args mg fa E args) as [tys ds].
+      pose proof (call_node_clean p c args sigs tys) as C. destruct (call_node mg E p c args sigs tys). cbn in *. apply Forall_app; auto.
+    + cbn. repeat constructor. unfold clean; cbn; tauto.
+Qed.
+End Blame.
+
+(* a value whose type cannot be known is never itself named as the reason of a type error *)
+Theorem any_never_blamed E e d : In d (snd (check E e)) -> ~ In TAny (blamed (d_kind d)).
+Proof. intros H. pose proof (chk_clean merge true E e None) as C. rewrite Forall_forall in C. exact (C d H). Qed.
